@@ -22,6 +22,8 @@ type bigInt = big.Int
 
 var bigOne = big.NewInt(1)
 
+func bigFromInt64(n int64) *big.Int { return big.NewInt(n) }
+
 func intRange(w int, signed bool) (lo, hi *big.Int) {
 	if signed {
 		hi = new(big.Int).Lsh(bigOne, uint(w-1))
@@ -172,6 +174,35 @@ func (ex *Exec) emit(s *State, kind, name string, goal Term, pos token.Pos, note
 func (ex *Exec) check(s *State, kind, name string, goal Term, pos token.Pos, note string) {
 	ex.emit(s, kind, name, goal, pos, note)
 	s.assume(goal)
+}
+
+// nm names a large term by a fresh constant so that terms (kept as strings) do not
+// grow exponentially along a path; the defining equation is a path assumption.
+func (ex *Exec) nm(s *State, t Term) Term {
+	if len(t.S) < 400 {
+		return t
+	}
+	c := ex.st.Fresh("t", t.Sort)
+	s.assume(Eq(c, t))
+	return c
+}
+
+func (ex *Exec) nmValue(s *State, v Value) Value {
+	switch x := v.(type) {
+	case IntV:
+		x.T = ex.nm(s, x.T)
+		return x
+	case BoolV:
+		x.T = ex.nm(s, x.T)
+		return x
+	case RefV:
+		x.T = ex.nm(s, x.T)
+		return x
+	case FloatV:
+		x.Bits = ex.nm(s, x.Bits)
+		return x
+	}
+	return v
 }
 
 func (ex *Exec) newCell(v Value) int {
@@ -567,6 +598,9 @@ func (ex *Exec) runBlock(s *State, fr *Frame, b *ssa.BasicBlock, from int) {
 		switch x := in.(type) {
 		case *ssa.If:
 			c := ex.val(fr, x.Cond).(BoolV).T
+			if !c.IsTrue() && !c.IsFalse() && ex.tryIfConvert(s, fr, b, c) {
+				return
+			}
 			if c.IsTrue() {
 				ex.jump(s, fr, b, b.Succs[0])
 			} else if c.IsFalse() {
@@ -1041,4 +1075,113 @@ func (ex *Exec) zero(t types.Type) Value {
 	}
 	ex.unsupported("zero value of %s", t)
 	return nil
+}
+
+// pureBlock: only side-effect-free instructions followed by a jump.
+func pureBlock(b *ssa.BasicBlock) bool {
+	if len(b.Instrs) == 0 || len(b.Instrs) > 12 {
+		return false
+	}
+	for i, in := range b.Instrs {
+		if i == len(b.Instrs)-1 {
+			_, ok := in.(*ssa.Jump)
+			return ok
+		}
+		switch x := in.(type) {
+		case *ssa.BinOp, *ssa.Convert, *ssa.ChangeType, *ssa.DebugRef, *ssa.Extract, *ssa.Field:
+		case *ssa.UnOp:
+			if x.Op == token.MUL {
+				return false // loads may fault; keep them on real paths
+			}
+		default:
+			return false
+		}
+	}
+	return false
+}
+
+// tryIfConvert merges a side-effect-free triangle/diamond into ite-valued phis
+// instead of forking the path (keeps unrolled loops linear).
+func (ex *Exec) tryIfConvert(s *State, fr *Frame, b *ssa.BasicBlock, c Term) bool {
+	T, F := b.Succs[0], b.Succs[1]
+	var join *ssa.BasicBlock
+	var sideT, sideF *ssa.BasicBlock
+	switch {
+	case len(T.Preds) == 1 && len(T.Succs) == 1 && T.Succs[0] == F && pureBlock(T):
+		join, sideT = F, T
+	case len(F.Preds) == 1 && len(F.Succs) == 1 && F.Succs[0] == T && pureBlock(F):
+		join, sideF = T, F
+	case len(T.Preds) == 1 && len(F.Preds) == 1 && len(T.Succs) == 1 && len(F.Succs) == 1 && T.Succs[0] == F.Succs[0] && pureBlock(T) && pureBlock(F):
+		join, sideT, sideF = T.Succs[0], T, F
+	default:
+		return false
+	}
+	if ex.prog.LoopsOf(fr.fn).ByHead[join] != nil {
+		return false
+	}
+	runSide := func(side *ssa.BasicBlock, cond Term) *Frame {
+		if side == nil {
+			return fr
+		}
+		st := s.clone()
+		base := len(st.pc)
+		st.assume(cond)
+		f2 := fr.fork()
+		f2.prev = b
+		for _, in := range side.Instrs[:len(side.Instrs)-1] {
+			ex.instr(st, f2, in)
+		}
+		// facts learnt on the side path (range assumptions, definitions of named terms) hold under cond
+		for _, a := range st.pc[base+1:] {
+			s.assume(Implies(cond, a))
+		}
+		return f2
+	}
+	fT := runSide(sideT, c)
+	fF := runSide(sideF, Not(c))
+	predT, predF := b, b
+	if sideT != nil {
+		predT = sideT
+	}
+	if sideF != nil {
+		predF = sideF
+	}
+	idx := func(p *ssa.BasicBlock) int {
+		for i, q := range join.Preds {
+			if q == p {
+				return i
+			}
+		}
+		return -1
+	}
+	iT, iF := idx(predT), idx(predF)
+	if iT < 0 || iF < 0 || len(join.Preds) != 2 {
+		return false
+	}
+	vals := map[*ssa.Phi]Value{}
+	n := 0
+	for _, in := range join.Instrs {
+		phi, ok := in.(*ssa.Phi)
+		if !ok {
+			break
+		}
+		n++
+		vt := ex.val(fT, phi.Edges[iT])
+		vf := ex.val(fF, phi.Edges[iF])
+		switch vt.(type) {
+		case IntV, BoolV, RefV:
+		default:
+			return false
+		}
+		vals[phi] = ex.nmValue(s, ex.iteValue(c, vt, vf))
+	}
+	for phi, v := range vals {
+		fr.env[phi] = v
+		if phi.Comment != "" {
+			s.names[phi.Comment] = v
+		}
+	}
+	fr.prev = predT
+	ex.runBlock(s, fr, join, n)
+	return true
 }
